@@ -19,6 +19,7 @@ pub fn dispatch(case: &Value) -> Value {
         "stable" => stable(case),
         "runs" => runs(case),
         "steps" => steps(case),
+        "parse" => parse_steps(case),
         m => json!({"ev": "harness-error", "msg": format!("unknown mode {m}")}),
     }
 }
@@ -642,5 +643,40 @@ fn steps(case: &Value) -> Value {
 }
 #[cfg(not(rva_verif))]
 fn steps(_case: &Value) -> Value {
+    json!({"ev": "harness-error", "msg": "built without --cfg rva_verif"})
+}
+
+
+/// As-built binding of the parser's statement loop (Trace_ParseLoop.tla):
+/// the hook events of one `parse_from_file`, file identities as small integers.
+#[cfg(rva_verif)]
+fn parse_steps(case: &Value) -> Value {
+    let (files, base) = files_of(case);
+    let reader = MemReader::new(files);
+    let mut parser = RVParser::new(reader);
+    riscv_analysis::verif_hooks::trace_on();
+    let (nodes, errors) = parser.parse_from_file(&base, false);
+    let lines = riscv_analysis::verif_hooks::trace_take();
+    let mut ids: HashMap<String, i64> = HashMap::new();
+    let mut evs = vec![];
+    for l in &lines {
+        let Ok(mut e) = serde_json::from_str::<Value>(l) else {
+            return json!({"ev": "harness-error", "msg": format!("bad hook line {l}")});
+        };
+        if let Some(f) = e.get("file").and_then(|f| f.as_str()).map(str::to_string) {
+            let n = if f.is_empty() {
+                0
+            } else {
+                let k = ids.len() as i64 + 1;
+                *ids.entry(f).or_insert(k)
+            };
+            e["file"] = json!(n);
+        }
+        evs.push(e);
+    }
+    json!({"ev": "parse", "nnodes": nodes.len(), "nerrors": errors.len(), "events": evs})
+}
+#[cfg(not(rva_verif))]
+fn parse_steps(_case: &Value) -> Value {
     json!({"ev": "harness-error", "msg": "built without --cfg rva_verif"})
 }
